@@ -482,6 +482,23 @@ _ADD10 = {
     "C17": " A release-storm kind has held+redundant Release calls start at the same instant (spinning barrier): all return, then exactly n Acquires succeed.",
     "C20": " Handlers may commit the response with a zero-length Write first; the sink records the headers at commit time.",
 }
+# Round 11.
+_ADD11 = {
+    "C05": " ARPA-shaped texts also have one dot (preferably the one in front of the root suffix) replaced by another byte.",
+    "C07": " Consecutive lines of the reuse kind use zone-case variants of one address, and the receiver's Addr may be preset.",
+    "C08": " Storage histories include addresses that accumulate 7..70 names (partly first seen with upper-case letters) and then meet some of them again in other spellings.",
+    "C10": " A quarter of the Sets store one of three per-key byte slices shared by all goroutines (the cache must only read its value argument).",
+    "C13": " U+0000 and U+007F belong to the fold alphabets and to the exhaustive enumeration.",
+    "C14": " URL texts include JSON/JS/HTML escape look-alikes (a literal backslash-u0026), tag characters and private-use code points.",
+    "C15": " The read-all kind may first io.Copy the reader into a writer that fails after k bytes and then drain it; only the accounting at the source is asserted there.",
+    "C16": " The same *url.URL value is used again after its path/opaque part and fragment were changed in place.",
+    "C18": " Schedule delays may be zero or negative (overdue) when every refresh takes time.",
+    "C19": " A level-variable kind builds the tree on a *slog.LevelVar that moves after construction and between derivations: all handlers of the tree must answer Enabled alike, under one of the two readings of 'configured level'.",
+    "C20": " Requests may declare a trailer whose value is filled into the original request's Trailer map when the body reaches EOF.",
+}
+for _pid, _lt in _ADD11.items():
+    PROPS[_pid]["level_text"] += _lt
+
 for _pid, _lt in _ADD10.items():
     PROPS[_pid]["level_text"] += _lt
 
@@ -504,6 +521,12 @@ for _pid, (_lt, _rule) in _ADD.items():
     PROPS[_pid]["level_text"] += _lt
     PROPS[_pid]["rule"] += _rule
 
+
+# A 32-bit platform variant (GOARCH=386 test binaries run on this machine): int, uint and pointers are 32 bits wide and
+# 64-bit atomics need aligned fields, so width assumptions in the library show as different results or panics.
+for _pid in ("C01", "C02", "C04", "C05", "C07", "C09", "C11", "C14", "C15"):
+    PROPS[_pid]["variants"] = list(PROPS[_pid]["variants"]) + [{"name": "x86-32", "goarch": "386", "shards": {"thorough": 2}}]
+    PROPS[_pid]["level_text"] += " The sequential kinds are additionally run as a GOARCH=386 binary (32-bit int/uint/pointers, alignment rules of 64-bit atomics)."
 
 ALL_IDS = ["C%02d" % i for i in range(1, 21)]
 NOT_APPLICABLE = [
